@@ -347,4 +347,393 @@ theorem run_two (arith : OpTok → α → α → Except Err α) (sig : Sig) (ir 
           · rw [List.map_map, ← hT, List.length_map]; exact hS
         rw [hsteps]
 
+/-! ### same result in another order -/
+
+/-- same outcome, and the same contents when the outcome is success (the contents a *failing* run leaves behind
+    depend on the order of the writes) -/
+def SameResult {σ : Type} (a b : σ × Except Err Unit) : Prop :=
+  (a.2 = .ok () ↔ b.2 = .ok ()) ∧ (a.2 = .ok () → a.1 = b.1)
+
+theorem SameResult.refl {σ : Type} (a : σ × Except Err Unit) : SameResult a a := ⟨Iff.rfl, fun _ => rfl⟩
+
+theorem SameResult.of_eq {σ : Type} {a b : σ × Except Err Unit} (h : a = b) : SameResult a b := by
+  subst h; exact SameResult.refl a
+
+theorem SameResult.trans {σ : Type} {a b c : σ × Except Err Unit} (h1 : SameResult a b) (h2 : SameResult b c) :
+    SameResult a c :=
+  ⟨h1.1.trans h2.1, fun h => (h1.2 h).trans (h2.2 (h1.1.mp h))⟩
+
+theorem SameResult.of_failures {σ : Type} {a b : σ × Except Err Unit} (ha : a.2 ≠ .ok ()) (hb : b.2 ≠ .ok ()) :
+    SameResult a b :=
+  ⟨⟨fun h => absurd h ha, fun h => absurd h hb⟩, fun h => absurd h ha⟩
+
+theorem SameResult.mat {m : Mat α} {a b : List α × Except Err Unit} (h : SameResult a b) :
+    SameResult (({ m with data := a.1 } : Mat α), a.2) (({ m with data := b.1 } : Mat α), b.2) :=
+  ⟨h.1, fun hh => by simp only [h.2 hh]⟩
+
+theorem getE_set_ne (d : List α) (p q : Nat) (x : α) (h : q ≠ p) : getE (d.set q x) p = getE d p := by
+  unfold getE; rw [List.getElem?_set_ne h]
+
+/-- two steps that write the same source -/
+def step2 (f : α → α → Except Err α) (s : Except Err α) (x y : Except Err Nat) (d : List α) : Except Err (List α) :=
+  bindE (step1 f x s d) (step1 f y s)
+
+theorem step2_comm (f : α → α → Except Err α) (s : Except Err α) (x y : Except Err Nat) (d : List α) :
+    (∃ d', step2 f s x y d = .ok d' ∧ step2 f s y x d = .ok d') ∨
+    ((∃ e, step2 f s x y d = .error e) ∧ (∃ e, step2 f s y x d = .error e)) := by
+  have dich : ∀ z : Except Err (List α), (∃ d', z = .ok d' ∧ z = .ok d') ∨ ((∃ e, z = .error e) ∧ (∃ e, z = .error e)) := by
+    intro z; cases z with
+    | ok d' => exact Or.inl ⟨d', rfl, rfl⟩
+    | error e => exact Or.inr ⟨⟨e, rfl⟩, ⟨e, rfl⟩⟩
+  cases x with
+  | error e =>
+    right; refine ⟨⟨e, rfl⟩, ?_⟩
+    unfold step2
+    cases h : step1 f y s d with
+    | error e' => exact ⟨e', rfl⟩
+    | ok d' => exact ⟨e, rfl⟩
+  | ok p =>
+    cases y with
+    | error e =>
+      right; refine ⟨?_, ⟨e, rfl⟩⟩
+      unfold step2
+      cases h : step1 f (.ok p) s d with
+      | error e' => exact ⟨e', rfl⟩
+      | ok d' => exact ⟨e, rfl⟩
+    | ok q =>
+      by_cases hpq : p = q
+      · subst hpq; exact dich _
+      · have hqp : q ≠ p := fun h => hpq h.symm
+        cases s with
+        | error e =>
+          right
+          constructor
+          · cases hg : getE d p <;> simp [step2, step1, bindE, hg]
+          · cases hg : getE d q <;> simp [step2, step1, bindE, hg]
+        | ok v =>
+          cases hgp : getE d p with
+          | error e =>
+            right
+            constructor
+            · simp [step2, step1, bindE, hgp]
+            · cases hgq : getE d q with
+              | error e' => simp [step2, step1, bindE, hgq]
+              | ok b =>
+                cases hfb : f b v with
+                | error e' => simp [step2, step1, bindE, hgq, hfb]
+                | ok nb => simp [step2, step1, bindE, hgq, hfb, getE_set_ne, hqp, hgp]
+          | ok a =>
+            cases hgq : getE d q with
+            | error e =>
+              right
+              constructor
+              · cases hfa : f a v with
+                | error e' => simp [step2, step1, bindE, hgp, hfa]
+                | ok na => simp [step2, step1, bindE, hgp, hfa, getE_set_ne, hpq, hgq]
+              · simp [step2, step1, bindE, hgq]
+            | ok b =>
+              cases hfa : f a v with
+              | error e =>
+                right
+                constructor
+                · simp [step2, step1, bindE, hgp, hfa]
+                · cases hfb : f b v with
+                  | error e' => simp [step2, step1, bindE, hgq, hfb]
+                  | ok nb => simp [step2, step1, bindE, hgq, hfb, getE_set_ne, hqp, hgp, hfa]
+              | ok na =>
+                cases hfb : f b v with
+                | error e =>
+                  right
+                  constructor
+                  · simp [step2, step1, bindE, hgp, hfa, getE_set_ne, hpq, hgq, hfb]
+                  · simp [step2, step1, bindE, hgq, hfb]
+                | ok nb =>
+                  left
+                  refine ⟨(d.set p na).set q nb, ?_, ?_⟩
+                  · simp [step2, step1, bindE, hgp, hfa, getE_set_ne, hpq, hgq, hfb]
+                  · simp [step2, step1, bindE, hgp, hfa, getE_set_ne, hqp, hgq, hfb]
+                    exact List.set_comm _ _ hqp
+
+theorem scatterS_two_ok (f : α → α → Except Err α) (s : Except Err α) (x y : Except Err Nat)
+    (rest : List (Except Err Nat × Except Err α)) (d d' : List α) (h : step2 f s x y d = .ok d') :
+    scatterS f ((x, s) :: (y, s) :: rest) d = scatterS f rest d' := by
+  unfold step2 at h
+  simp only [scatterS]
+  cases h1 : step1 f x s d with
+  | error e => rw [h1] at h; cases h
+  | ok d1 =>
+    rw [h1] at h; simp only [bindE] at h
+    simp only [h]
+
+theorem scatterS_two_error (f : α → α → Except Err α) (s : Except Err α) (x y : Except Err Nat)
+    (rest : List (Except Err Nat × Except Err α)) (d : List α) (e : Err) (h : step2 f s x y d = .error e) :
+    (scatterS f ((x, s) :: (y, s) :: rest) d).2 ≠ .ok () := by
+  unfold step2 at h
+  simp only [scatterS]
+  cases h1 : step1 f x s d with
+  | error e' => simp
+  | ok d1 =>
+    rw [h1] at h; simp only [bindE] at h
+    simp only [h]; simp
+
+/-- **Writes of one value commute.**  Steps that all write the same source value (`x[…] op= v` with a scalar `v`)
+    may be performed in any order: the run succeeds in one order iff it succeeds in the other, and then leaves the
+    same contents — also with repeated targets and with an operator that can fail. -/
+theorem scatterS_perm (f : α → α → Except Err α) (s : Except Err α) {ts1 ts2 : List (Except Err Nat)}
+    (hp : ts1.Perm ts2) : ∀ d : List α,
+    SameResult (scatterS f (ts1.map (fun t => (t, s))) d) (scatterS f (ts2.map (fun t => (t, s))) d) := by
+  induction hp with
+  | nil => intro d; exact SameResult.refl _
+  | cons x _ ih =>
+    intro d
+    simp only [List.map_cons, scatterS]
+    cases step1 f x s d with
+    | error e => exact SameResult.refl _
+    | ok d' => exact ih d'
+  | swap x y l =>
+    intro d
+    simp only [List.map_cons]
+    rcases step2_comm f s y x d with ⟨d', h1, h2⟩ | ⟨⟨e1, h1⟩, ⟨e2, h2⟩⟩
+    · rw [scatterS_two_ok f s y x _ d d' h1, scatterS_two_ok f s x y _ d d' h2]
+      exact SameResult.refl _
+    · exact SameResult.of_failures (scatterS_two_error f s y x _ d e1 h1) (scatterS_two_error f s x y _ d e2 h2)
+  | trans _ _ ih1 ih2 => intro d; exact (ih1 d).trans (ih2 d)
+
+theorem flatMap_cons_perm {ι κ : Type} (f : ι → κ) (g : ι → List κ) (l : List ι) :
+    (l.flatMap (fun c => f c :: g c)).Perm (l.map f ++ l.flatMap g) := by
+  induction l with
+  | nil => exact List.Perm.refl _
+  | cons c cs ih =>
+    simp only [List.flatMap_cons, List.map_cons, List.cons_append]
+    apply List.Perm.cons
+    have h1 : (g c ++ cs.flatMap (fun c => f c :: g c)).Perm (g c ++ (cs.map f ++ cs.flatMap g)) :=
+      List.Perm.append_left _ ih
+    refine h1.trans ?_
+    rw [← List.append_assoc, ← List.append_assoc]
+    exact List.Perm.append_right _ List.perm_append_comm
+
+/-- the row-outer nest visits the cells of the column-outer nest -/
+theorem nest_perm (rs cs : List Nat) : (nest false rs cs).Perm (nest true rs cs) := by
+  simp only [nest, Bool.false_eq_true, if_false, if_true]
+  induction rs with
+  | nil =>
+    have : cs.flatMap (fun c => ([] : List Nat).map (fun r => (r, c))) = [] := by
+      induction cs with
+      | nil => rfl
+      | cons c cs ih => simp only [List.map_nil] at ih ⊢; simp only [List.flatMap_cons, List.nil_append, ih]
+    rw [this]; exact List.Perm.refl _
+  | cons r rs ih =>
+    simp only [List.flatMap_cons, List.map_cons]
+    refine List.Perm.trans ?_ (flatMap_cons_perm (fun c => (r, c)) (fun c => rs.map (fun r => (r, c))) cs).symm
+    exact List.Perm.append_left _ ih
+
+/-! ### two-index kernels in any order, with a view taken ahead of the loop -/
+
+/-- the steps of a two-index kernel over a list of (row variable, column variable) pairs -/
+def steps2 (m : Mat α) (args : List Arg) (rowAx colAx : TAxis) (ss : SrcSel) (src : Operand α)
+    (N : List (Nat × Nat)) : List (Except Err Nat × Except Err α) :=
+  N.map (fun p => (rcTargetOf m args rowAx colAx p.1 p.2,
+    srcElem m args ss src p.1 p.2 (tCoord args rowAx p.1) (tCoord args colAx p.2)))
+
+theorem order_same (f : α → α → Except Err α) (m : Mat α) (args : List Arg) (rowAx colAx : TAxis) (ss : SrcSel)
+    (src : Operand α) (hfit : srcFits ss src = true) (rs cs : List Nat) (co : Bool)
+    (h : rs = [0] ∨ cs = [0] ∨ ss = .whole) (d : List α) :
+    SameResult (scatterS f (steps2 m args rowAx colAx ss src (nest co rs cs)) d)
+      (scatterS f (steps2 m args rowAx colAx ss src (nest true rs cs)) d) := by
+  cases co with
+  | true => exact SameResult.refl _
+  | false =>
+    rcases h with h | h | h
+    · subst h; rw [nest_single_row]; exact SameResult.refl _
+    · subst h; rw [nest_single_col]; exact SameResult.refl _
+    · subst h
+      cases src with
+      | mat w => cases hfit
+      | scalar v =>
+        have e : ∀ N : List (Nat × Nat), steps2 m args rowAx colAx .whole (.scalar v) N =
+            (N.map (fun p => rcTargetOf m args rowAx colAx p.1 p.2)).map (fun t => (t, Except.ok v)) := by
+          intro N; unfold steps2; rw [List.map_map]; rfl
+        rw [e, e]
+        exact scatterS_perm f (.ok v) ((nest_perm rs cs).map _) d
+
+theorem hoistCheck_col_fail (m : Mat α) (args : List Arg) (rowAx colAx : TAxis) (e : Err)
+    (h : hoistCheck args colAx m.cols = .error e) (r c : Nat) :
+    ∃ e', rcTargetOf m args rowAx colAx r c = .error e' := by
+  cases colAx with
+  | std a =>
+    cases a with
+    | scalar a m1 =>
+      unfold rcTargetOf
+      cases hr : tCoord args rowAx r with
+      | error e' => exact ⟨e', rfl⟩
+      | ok r0 =>
+        have hcc : tCoord args (.std (.scalar a m1)) c = coord args (.scalar a m1) 0 := rfl
+        rw [hcc]
+        simp only [hoistCheck] at h
+        cases hc : coord args (.scalar a m1) 0 with
+        | error e' => exact ⟨e', rfl⟩
+        | ok c0 =>
+          rw [hc] at h; simp only [bindE] at h ⊢
+          by_cases hlt : c0 < m.cols
+          · rw [if_pos hlt] at h; cases h
+          · rw [if_neg (fun hh => hlt hh.2)]; exact ⟨_, rfl⟩
+    | vec a m1 b => cases h
+    | mask a b g => cases h
+    | all b => cases h
+  | maskPred a b => cases h
+  | nonzero a b => cases h
+  | maskQuot a b q => cases h
+
+theorem hoistCheck_row_fail (m : Mat α) (args : List Arg) (rowAx colAx : TAxis) (e : Err)
+    (h : hoistCheck args rowAx m.rows = .error e) (r c : Nat) :
+    ∃ e', rcTargetOf m args rowAx colAx r c = .error e' := by
+  cases rowAx with
+  | std a =>
+    cases a with
+    | scalar a m1 =>
+      unfold rcTargetOf
+      have hrr : tCoord args (.std (.scalar a m1)) r = coord args (.scalar a m1) 0 := rfl
+      rw [hrr]
+      simp only [hoistCheck] at h
+      cases hr : coord args (.scalar a m1) 0 with
+      | error e' => exact ⟨e', rfl⟩
+      | ok r0 =>
+        rw [hr] at h; simp only [bindE] at h ⊢
+        cases hc : tCoord args colAx c with
+        | error e' => exact ⟨e', rfl⟩
+        | ok c0 =>
+          simp only
+          by_cases hlt : r0 < m.rows
+          · rw [if_pos hlt] at h; cases h
+          · rw [if_neg (fun hh => hlt hh.1)]; exact ⟨_, rfl⟩
+    | vec a m1 b => cases h
+    | mask a b g => cases h
+    | all b => cases h
+  | maskPred a b => cases h
+  | nonzero a b => cases h
+  | maskQuot a b q => cases h
+
+/-- a kernel whose hoisted view fails would fail at its first step as well -/
+theorem hoist_fail (f : α → α → Except Err α) (m : Mat α) (args : List Arg) (rowAx colAx : TAxis) (ss : SrcSel)
+    (src : Operand α) (e : Err)
+    (h : bindE (hoistCheck args rowAx m.rows) (fun _ => hoistCheck args colAx m.cols) = .error e)
+    (rs cs : List Nat) (hrs : rs ≠ []) (hcs : cs ≠ []) (d : List α) :
+    (scatterS f (steps2 m args rowAx colAx ss src (nest true rs cs)) d).2 ≠ .ok () := by
+  have hT : ∀ r c, ∃ e', rcTargetOf m args rowAx colAx r c = .error e' := by
+    cases h1 : hoistCheck args rowAx m.rows with
+    | error e1 => exact hoistCheck_row_fail m args rowAx colAx e1 h1
+    | ok u =>
+      rw [h1] at h; simp only [bindE] at h
+      exact hoistCheck_col_fail m args rowAx colAx e h
+  cases rs with
+  | nil => exact absurd rfl hrs
+  | cons r rs' =>
+    cases cs with
+    | nil => exact absurd rfl hcs
+    | cons c cs' =>
+      obtain ⟨e', he'⟩ := hT r c
+      simp only [nest, if_true, List.flatMap_cons, List.map_cons, List.cons_append, steps2, scatterS, he', step1, bindE]
+      simp
+
+theorem loops2_hoist (m : Mat α) (args : List Arg) (rowAx colAx : TAxis) (rs cs : List Nat)
+    (hg1 : tGuard m args rowAx = .ok ()) (hg2 : tGuard m args colAx = .ok ())
+    (hl1 : tLoopVals m args rowAx = .ok rs) (hl2 : tLoopVals m args colAx = .ok cs) :
+    loops2 m args rowAx colAx true =
+      bindE (bindE (hoistCheck args rowAx m.rows) (fun _ => hoistCheck args colAx m.cols)) (fun _ => .ok (rs, cs)) := by
+  simp only [loops2, hg1, hg2, hl1, hl2, bindE, if_true]
+
+theorem run_some (arith : OpTok → α → α → Except Err α) (ir : KIR) (rowAx : TAxis) (hrow : ir.row = some rowAx)
+    (m : Mat α) (args : List Arg) (src : Operand α) (rs cs : List Nat)
+    (h : loops2 m args rowAx ir.col ir.hoist = .ok (rs, cs)) :
+    run arith ir m args src =
+      (({ m with data := (scatterS (fOf arith ir.op) (steps2 m args rowAx ir.col ir.src src (nest ir.colOuter rs cs)) m.data).1 } : Mat α),
+       (scatterS (fOf arith ir.op) (steps2 m args rowAx ir.col ir.src src (nest ir.colOuter rs cs)) m.data).2) := by
+  unfold run; rw [hrow]; simp only [h]; rfl
+
+/-- **Two-index kernels in any order.**  An accepted kernel that writes `sink[(r, c)]` — whatever the order of its two
+    loops, and also when it takes a view on a scalar coordinate ahead of its loop — succeeds exactly when `assign2`
+    succeeds for the two selectors its arguments hold, and then leaves the same matrix.  (With the row loop outside
+    the cells are visited in another order than the model's, and a hoisted view fails before anything is written:
+    what a *failing* run leaves behind is therefore not compared.)  A hoisted view is only checked by the model when
+    a cell is addressed at all, hence `hne`. -/
+theorem run_two_same (arith : OpTok → α → α → Except Err α) (sig : Sig) (ir : KIR) (hok : kOk sig ir = true)
+    (rowAx : TAxis) (hrow : ir.row = some rowAx) (m : Mat α) (args : List Arg)
+    (src : Operand α) (hfit : srcFits ir.src src = true)
+    (s1 s2 : Sel) (hs1 : tSelOf args rowAx = some s1) (hs2 : tSelOf args ir.col = some s2)
+    (hne : ir.hoist = true → ∀ R C, selIxs s1 m.rows = .ok R → selIxs s2 m.cols = .ok C → R ≠ [] ∧ C ≠ []) :
+    SameResult (run arith ir m args src) (assign2 (fOf arith sig.op) m s1 s2 src) := by
+  have hok0 := hok
+  unfold kOk at hok
+  rw [hrow] at hok
+  cases hsr : sig.row with
+  | none => rw [hsr] at hok; simp at hok
+  | some rk =>
+    rw [hsr] at hok
+    simp only [Bool.and_eq_true, decide_eq_true_eq] at hok
+    obtain ⟨hop, ⟨⟨⟨⟨⟨⟨hr, hc⟩, _⟩, _⟩, _⟩, _⟩, hsrc⟩⟩ := hok
+    obtain ⟨a1, hstd1, ha1⟩ := tOk_std hr
+    obtain ⟨a2, hstd2, ha2⟩ := tOk_std hc
+    have hs1' : selOf args a1 = some s1 := by rw [hstd1] at hs1; exact hs1
+    have hs2' : selOf args a2 = some s2 := by rw [hstd2] at hs2; exact hs2
+    rcases axis_reads m args .rows a1 s1 ha1 hs1' with ⟨hg1, hsel1⟩ | ⟨rs, R, hg1, hl1, hsel1, hmap1⟩
+    · have hsel1' : selIxs s1 m.rows = .error .dim := hsel1
+      apply SameResult.of_eq
+      unfold run assign2
+      rw [hrow, hsel1']
+      simp only [loops2, hstd1, tGuard, hg1, bindE]
+    · have hsel1' : selIxs s1 m.rows = .ok R := hsel1
+      rcases axis_reads m args .cols a2 s2 ha2 hs2' with ⟨hg2, hsel2⟩ | ⟨cs, C, hg2, hl2, hsel2, hmap2⟩
+      · have hsel2' : selIxs s2 m.cols = .error .dim := hsel2
+        apply SameResult.of_eq
+        unfold run assign2
+        rw [hrow, hsel1', hsel2']
+        simp only [loops2, hstd1, hstd2, tGuard, hg1, hg2, bindE]
+      · have hsel2' : selIxs s2 m.cols = .ok C := hsel2
+        have hg1' : tGuard m args rowAx = .ok () := by rw [hstd1]; exact hg1
+        have hg2' : tGuard m args ir.col = .ok () := by rw [hstd2]; exact hg2
+        have hl1' : tLoopVals m args rowAx = .ok rs := by rw [hstd1]; exact hl1
+        have hl2' : tLoopVals m args ir.col = .ok cs := by rw [hstd2]; exact hl2
+        -- the same kernel with the column loop outside and no hoisted view is the model
+        have hx := run_two arith sig { ir with colOuter := true, hoist := false } hok0
+          (by simp only [kExact, Bool.not_false, Bool.true_or, Bool.true_and]; cases ir.row <;> rfl) rowAx hrow m args src hfit s1 s2 hs1 hs2
+        rw [← hx]
+        rw [run_some arith { ir with colOuter := true, hoist := false } rowAx hrow m args src rs cs
+          (loops2_ok m args rowAx ir.col rs cs hg1' hg2' hl1' hl2')]
+        -- which order-dependent case we are in
+        have hcase : rs = [0] ∨ cs = [0] ∨ ir.src = .whole := by
+          cases hsv : sig.vectorSrc with
+          | false =>
+            rw [hsv] at hsrc; simp only [Bool.false_eq_true, if_false, decide_eq_true_eq] at hsrc
+            exact Or.inr (Or.inr hsrc)
+          | true =>
+            rw [hsv] at hsrc
+            simp only [if_true, Bool.or_eq_true, Bool.and_eq_true, decide_eq_true_eq] at hsrc
+            rcases hsrc with ⟨_, hsc⟩ | ⟨_, hsc⟩
+            · exact Or.inr (Or.inl (scalar_loop m args ir.col cs hsc hl2'))
+            · exact Or.inl (scalar_loop m args rowAx rs hsc hl1')
+        have hord := order_same (fOf arith ir.op) m args rowAx ir.col ir.src src hfit rs cs ir.colOuter hcase m.data
+        cases hh : ir.hoist with
+        | false =>
+          rw [run_some arith ir rowAx hrow m args src rs cs (by rw [hh]; exact loops2_ok m args rowAx ir.col rs cs hg1' hg2' hl1' hl2')]
+          exact hord.mat
+        | true =>
+          have hl := loops2_hoist m args rowAx ir.col rs cs hg1' hg2' hl1' hl2'
+          cases hchk : bindE (hoistCheck args rowAx m.rows) (fun _ => hoistCheck args ir.col m.cols) with
+          | ok u =>
+            rw [hchk] at hl; simp only [bindE] at hl
+            rw [run_some arith ir rowAx hrow m args src rs cs (by rw [hh]; exact hl)]
+            exact hord.mat
+          | error e =>
+            rw [hchk] at hl; simp only [bindE] at hl
+            obtain ⟨hR, hC⟩ := hne hh R C hsel1' hsel2'
+            have hrs : rs ≠ [] := by
+              intro h0; subst h0; simp only [List.map_nil] at hmap1
+              exact hR (List.map_eq_nil_iff.mp hmap1.symm)
+            have hcs : cs ≠ [] := by
+              intro h0; subst h0; simp only [List.map_nil] at hmap2
+              exact hC (List.map_eq_nil_iff.mp hmap2.symm)
+            apply SameResult.of_failures
+            · unfold run; rw [hrow]; simp only [hh, hl]; simp
+            · exact hoist_fail (fOf arith ir.op) m args rowAx ir.col ir.src src e hchk rs cs hrs hcs m.data
+
 end MechVerif.AssignIR
